@@ -2545,6 +2545,16 @@ class InForeignContentPhase(Phase):
                 token["selfClosingAcknowledged"] = True
 
     def processEndTag(self, token):
+        if token["name"] in ("br", "p"):
+            self.parser.parseError("unexpected-html-element-in-foreign-content",
+                                   {"name": token["name"]})
+            while (self.tree.openElements[-1].namespace !=
+                   self.tree.defaultNamespace and
+                   not self.parser.isHTMLIntegrationPoint(self.tree.openElements[-1]) and
+                   not self.parser.isMathMLTextIntegrationPoint(self.tree.openElements[-1])):
+                self.tree.openElements.pop()
+            return self.parser.phase.processEndTag(token)
+
         nodeIndex = len(self.tree.openElements) - 1
         node = self.tree.openElements[-1]
         if node.name.translate(asciiUpper2Lower) != token["name"]:
